@@ -268,6 +268,64 @@ m("C19","filetree-export-drops-pubkeys","x/filetree/genesis.go",
 m("C19","oracle-init-skips-feeds","x/oracle/genesis.go",
   'k.SetFeed(ctx, elem)','_ = elem',"C19/R1","genesis-omits:oracle/Feed/value/")
 
+# ---- C09
+m("C09","bid-overwrite-without-refund","x/rns/keeper/msg_server_bid.go",
+  """	if found {
+		oldPrice, err""","""	if found && false {
+		oldPrice, err""","C09/R3","overwrite-without-refund","inverse of fix F9")
+m("C09","cancel-keeps-bid","x/rns/keeper/msg_server_cancel_bid.go",
+  'k.RemoveBids(ctx, fmt.Sprintf("%s%s", sender, name))','_ = fmt.Sprintf("%s%s", sender, name)',"C09/R4","rns.MsgCancelBid:bid-consumed")
+m("C09","cancel-refund-message-amount","x/rns/keeper/msg_server_cancel_bid.go",
+  'price, err := sdk.ParseCoinsNormalized(bid.Price)','price, err := sdk.ParseCoinsNormalized(bid.Name)',"C09/R4","rns.MsgCancelBid:amount-is-recorded-price")
+m("C09","accept-send-to-bidder","x/rns/keeper/msg_server_accept_bid.go",
+  'err = k.bankKeeper.SendCoinsFromModuleToAccount(ctx, types.ModuleName, owner, price)',
+  'bidAcc, _ := sdk.AccAddressFromBech32(bid.Bidder)\n\terr = k.bankKeeper.SendCoinsFromModuleToAccount(ctx, types.ModuleName, bidAcc, price)',"C09/R4","rns.MsgAcceptBid:recipient-is-signer")
+m("C09","bid-record-differs-from-escrow","x/rns/keeper/msg_server_bid.go",
+  'Price:  bid,','Price:  name,',"C09/R2","rns.MsgBid:recorded-price")
+m("C09","buy-credit-less-than-debit","x/rns/keeper/msg_server_buy.go",
+  'err = k.bankKeeper.SendCoinsFromModuleToAccount(ctx, types.ModuleName, seller, coins)','err = k.bankKeeper.SendCoinsFromModuleToAccount(ctx, types.ModuleName, seller, sdk.NewCoins(sdk.NewCoin(price.Denom, price.Amount.QuoRaw(2))))',"C09/R1","rns.MsgBuy:same-value")
+m("C09","bid-swallow-send-error","x/rns/keeper/msg_server_bid.go",
+  """	err = k.bankKeeper.SendCoinsFromAccountToModule(ctx, bidder, types.ModuleName, price)
+	if err != nil {
+		return err
+	}""","""	err = k.bankKeeper.SendCoinsFromAccountToModule(ctx, bidder, types.ModuleName, price)
+	if err != nil {
+		ctx.Logger().Error(err.Error())
+	}""","C09/R5","error-propagates")
+m("C09","accept-delete-other-bid","x/rns/keeper/msg_server_accept_bid.go",
+  'k.RemoveBids(ctx, fmt.Sprintf("%s%s", bidder, name))','k.RemoveBids(ctx, fmt.Sprintf("%s%s", sender, name))',"C09/R4","rns.MsgAcceptBid:delete-key")
+# ---- C15
+m("C15","shutdown-refund-current-price","x/storage/keeper/msg_server_init_provider.go",
+  'coin := sdk.NewInt64Coin("ujkl", collateral.Amount)','coin := sdk.NewInt64Coin("ujkl", k.GetParams(ctx).CollateralPrice+0*collateral.Amount)',"C15/R2","refund-amount")
+m("C15","shutdown-keep-collateral-record","x/storage/keeper/msg_server_init_provider.go",
+  'k.RemoveCollateral(ctx, msg.Creator)','_ = collateral.Address',"C15/R2","consumed:storage/Collateral/value/")
+m("C15","shutdown-keep-provider","x/storage/keeper/msg_server_init_provider.go",
+  'k.RemoveProviders(ctx, msg.Creator)','_ = found',"C15/R2","consumed:storage/Providers/value/")
+m("C15","init-record-differs","x/storage/keeper/msg_server_init_provider.go",
+  'Amount:  params.CollateralPrice,','Amount:  msg.TotalSpace,',"C15/R1","recorded-amount")
+m("C15","init-allow-reinit","x/storage/keeper/msg_server_init_provider.go",
+  """	_, found := k.GetProviders(ctx, msg.Creator)
+	if found {
+		return nil, types.ErrProviderExists""","""	_, found := k.GetProviders(ctx, msg.Creator)
+	if found && msg.TotalSpace == 0 {
+		return nil, types.ErrProviderExists""","C15/R1","provider-absent")
+m("C15","other-handler-drains-escrow","x/storage/keeper/msg_server_set_provider_ip.go",
+  'provider.Ip = msg.Ip','provider.Ip = msg.Ip\n\tif acc, err := sdk.AccAddressFromBech32(msg.Creator); err == nil {\n\t\t_ = k.bankKeeper.SendCoinsFromModuleToAccount(ctx, types.CollateralCollectorName, acc, sdk.NewCoins(sdk.NewInt64Coin("ujkl", 1)))\n\t}',"C15/R3","touches-escrow")
+m("C15","escrow-not-in-maccperms","app/app.go",
+  '\t\tstoragemoduletypes.CollateralCollectorName: nil,\n','',"C15/R3","maccPerms")
+m("C15","shutdown-refund-to-ip-derived","x/storage/keeper/msg_server_init_provider.go",
+  """		account, err := sdk.AccAddressFromBech32(msg.Creator)
+		if err != nil {
+			return nil, err
+		}
+
+		err = k.bankKeeper.SendCoinsFromModuleToAccount""","""		account, err := sdk.AccAddressFromBech32(collateral.Address)
+		if err != nil {
+			return nil, err
+		}
+
+		err = k.bankKeeper.SendCoinsFromModuleToAccount""","C15/R2","recipient-is-signer")
+
 for x in M:
     d = os.path.join(os.path.dirname(os.path.abspath(__file__)), x["property"])
     os.makedirs(d, exist_ok=True)
